@@ -41,6 +41,23 @@ CHECKS = {
             'lattice state as a list: blocks, order, multiplicity, resolution, parent mapping, error behaviour and argument immutability.',
             'Within a block only set equality is required. Larger expansions are skipped (counted).',
             'DESIGN.md 3/C10'),
+    'C16': ('model_checking',
+            'stateless exploration of every one-preemption schedule of the real code (sys.monitoring line/instruction events + fork), context bound 2',
+            'For every pair (A, B) of a call menu, from a cold and a warm library, every line event of A inside the package is taken as a preemption point at which B runs to completion before A resumes '
+            '(thorough: all 12x12 pairs and bytecode-instruction granularity for short calls); both values must be bit-identical to the pristine single calls and nothing may raise.',
+            'One preemption only (A|B|A); no memory-model effects of free-threaded builds; calls and arguments limited to the menu (all forced to collide on the same face edge).',
+            'DESIGN.md 2/E4, 3/C16'),
+    'C17': ('model_checking',
+            'explicit-state BFS over call histories on the real library (fork per transition, canonical state hashing), pristine single-call values as oracle',
+            'All histories of length 1 over a 738-event menu that owns every face x triangle x direct/reflected cache slot, length 2 over 354 (quick) / all (thorough) events, length 3 over a sub-menu, '
+            'plus 4 saturation histories; every result compared bit-for-bit with the pristine single call, arguments compared before/after, returned lists mutated and calls repeated.',
+            'History depth bounded (2-3 plus saturation); arguments limited to the menu; state identity relies on the generic canonical walk.',
+            'DESIGN.md 2/E5, 3/C17'),
+    'C18': ('model_checking',
+            'exhaustive enumeration of (orientation, level, index) through the real index->anchor->pentagon->IJ->index chain',
+            'All indices of all 6 orientations at levels 1..7 (quick) / 1..9 (thorough) and digit-window seeds at levels up to 28: round trip, pairwise distinct cells, equal areas summing to the triangle, prefix coherence.',
+            'Above the exhaustive bound only windowed digit patterns; non-overlap of pentagons is certified by C03 rather than here.',
+            'DESIGN.md 3/C18'),
     'C19': ('exploration',
             'lane-exhaustive enumeration of 64-bit values through the real hex conversion',
             'All 65536 values of each 16-bit lane over four backgrounds, all single-bit/nibble perturbations and boundary values, and every valid id of resolutions <= 6/8 round-trip, '
